@@ -154,6 +154,18 @@ Theorem C16_compaction : forall ct pid sz q r, try_pack ct pid sz q = (r, true) 
 Proof. exact C16_compaction_thm. Qed.
 Print Assumptions C16_compaction.
 
+(* Reconnect (event `Relink n`: after a protocol error, or when the link dies — real supla_esp_mqtt_reconnect with
+   mqtt_reinit): whatever the old session left behind (a partial packet, a malformed packet, queued messages), the new
+   session starts `ready` with an empty receive window and only its CONNECT in the queue — so every theorem above about a
+   session holds for every session of a history. *)
+Theorem C16_reconnect_starts_fresh : forall s n,
+  let '(s', o) := step FIXED s (Relink n) in
+  ready s' /\ buf s' = [] /\ all_sent (mq s') /\
+  mq s' = [{| ect := CT_CONNECT; epid := 0; esz := n; esent := true; eacked := false |}] /\
+  o = (if halted s then [] else [Reconnect]) ++ [Boot n; Sent CT_CONNECT []].
+Proof. exact C16_reconnect_fresh_thm. Qed.
+Print Assumptions C16_reconnect_starts_fresh.
+
 (* the unrepaired code *)
 Theorem C16_old_code_refuted :
   rx_of (run OLD_RECV w_split) = [RxErr E_CONTROL_INVALID_FLAGS; RxReconnect] /\
